@@ -160,27 +160,38 @@ def record_pipeline(b, world, intended, *, inner_fraction, ms=(0,), ks=(), radiu
     for k in ks:
         if k > len(ev_rows) or k < 1:
             continue
-        for m in ms[:1]:
-            parts = tr.split(k)
-            prow = [rows_of(p.events, EV_COLS) for p in parts]
-            offs = find_offsets(ev_rows, prow, T)
+        parts = tr.split(k)
+        prow = [rows_of(p.events, EV_COLS) for p in parts]
+        offs = find_offsets(ev_rows, prow, T)
+        for m in ms:
+            j = jumps_or_none(tr, m)
+            # per-part jump tables through the public Jumps.split (which must forward the residence setting);
+            # it raises when some part has no jump at all -- then fall back to analysing each part separately
+            part_rows = None
+            if j is not None:
+                try:
+                    part_rows = [rows_of(pj.data, J_COLS) for pj in j.split(k)]
+                except ValueError as e:
+                    if 'No jumps found' not in str(e):
+                        raise
+            if part_rows is None:
+                part_rows = []
+                for p in parts:
+                    pj = jumps_or_none(p, m)
+                    part_rows.append(rows_of(pj.data, J_COLS) if pj is not None else [])
             P = []
-            for p, rows, o in zip(parts, prow, offs):
-                pj = jumps_or_none(p, m)
-                P.append({'hist': hist_of(p.states, p.inner_states) if len(p.states) else [], 'rows': rows,
-                          'offset': int(o), 'jumps': rows_of(pj.data, J_COLS) if pj is not None else []})
+            for p, rows, o, jr in zip(parts, prow, offs, part_rows):
+                P.append({'hist': hist_of(p.states, p.inner_states) if len(p.states) else [], 'rows': rows, 'offset': int(o), 'jumps': jr})
             add('Split', k=k, m=m, parts=P)
-            if 'Rates' in want and all(len(x['jumps']) > 0 for x in P):
-                j = jumps_or_none(tr, m)
-                if j is not None and k >= 2:
-                    df = j.rates(k)
-                    denom = A * (T * traj.time_step) / k
-                    sums = []
-                    for (la, lb), row in df.iterrows():
-                        s1 = to_int(row['rates'] * denom * k)
-                        s2 = to_int((row['std'] * denom) ** 2 * (k - 1) * k, tol=1e-5)
-                        sums.append([codes[la], codes[lb], s1, s2])
-                    add('Rates', k=k, labels=lab_seq, sums=sums)
+            if 'Rates' in want and j is not None and k >= 2 and all(len(x['jumps']) > 0 for x in P):
+                df = j.rates(k)
+                denom = A * (T * traj.time_step) / k
+                sums = []
+                for (la, lb), row in df.iterrows():
+                    s1 = to_int(row['rates'] * denom * k)
+                    s2 = to_int((row['std'] * denom) ** 2 * (k - 1) * k, tol=1e-5)
+                    sums.append([codes[la], codes[lb], s1, s2])
+                add('Rates', k=k, labels=lab_seq, sums=sums)
     return recs, tr
 
 
